@@ -246,6 +246,34 @@ class PyTuple(tuple):
     """the value of a tuple / list *display* (`(a, b)`, `[a]`): `+` concatenates two of them; what passes through a call (np.array(...)) is a vector"""
 
 
+class LazySeq(Unknown):
+    """a sequence every element of which is one expression of its position: a comprehension or `map(f, X)` over something that cannot be enumerated from the
+    source (`[coeffunc(Q, dT, w) for w in wn]`).  `template` is the value of the element at the position `placeholder` (a symbol no source name can
+    spell).  For every consumer it is an Unknown - nothing is concluded from it as a whole; only taking its generic element (`for x in seq`,
+    `for k, x in enumerate(seq)`, `zip(range(n), seq)`, `seq[k]` with a loop counter) substitutes the position."""
+
+    def __init__(self, why, template, placeholder):
+        super().__init__(why)
+        self.template = template
+        self.placeholder = placeholder
+
+    def element(self, k):
+        return subs_value(self.template, self.placeholder, k)
+
+
+def subs_value(v, name, k):
+    """the value v (formula, display, table) with the symbol `name` replaced by the formula k"""
+    if v is None or is_unknown(v):
+        return v
+    if isinstance(v, PyTuple):
+        return PyTuple(subs_value(x, name, k) for x in v)
+    if isinstance(v, tuple):
+        return tuple(subs_value(x, name, k) for x in v)
+    if isinstance(v, DictValue):
+        return DictValue({q: subs_value(x, name, k) for q, x in v.d.items()})
+    return v.subs({name: k}) if depends(v, name) else v
+
+
 def pykey(v):
     """value -> (True, Python key) when it is a string literal, an integer constant, None, True or False (a key of a literal table), else (False, None)"""
     s = str_of(v)
@@ -833,6 +861,7 @@ class Ev3(AutoEvaluator):
         self.modfuncs = frozenset()   # names of the module-level functions of the module under evaluation
         self.parent = None    # the evaluator of the caller (an inlined callee asks it about the array objects it was handed)
         self.counters = set() # symbols bound as loop counters (integers): `A[k]` with such an index is a view of A
+        self.in_template = 0  # > 0 while the generic element of a LazySeq is evaluated (a hook that keeps records of its own must not record there)
         self._cur_stmt = None
 
     def bname(self, name):
@@ -861,6 +890,12 @@ class Ev3(AutoEvaluator):
             if not isinstance(base, DictValue):
                 return base                            # X[...] / X[:]: every element
         if isinstance(node, ast.Subscript):
+            if isinstance(node.value, ast.Name) and isinstance(node.ctx, ast.Load) and node.value.id not in self.buffers \
+                    and isinstance(self.env.get(node.value.id), LazySeq) and not isinstance(node.slice, (ast.Slice, ast.Tuple)):
+                k = self.ev(node.slice)
+                if not is_unknown(k) and not isinstance(k, (tuple, DictValue)) and (sym_of(k) in self.counters or (k.is_const() and k.const_value() >= 0
+                                                                                                             and k.const_value().denominator == 1)):
+                    return self.env[node.value.id].element(k)           # seq[k], k a loop counter / a position counted from the front
             if isinstance(node.value, ast.Name) and isinstance(node.ctx, ast.Load) and node.value.id not in self.buffers:
                 cur = self.env.get(node.value.id)
                 u = unfn(cur) if (cur is not None and not is_unknown(cur) and not isinstance(cur, (tuple, DictValue))) else None
@@ -954,6 +989,10 @@ class Ev3(AutoEvaluator):
             r = self._comprehension(node)
             if r is not NotImplemented:
                 return r
+            if not isinstance(node, (ast.DictComp, ast.SetComp)):
+                r = self._lazy_seq(node)
+                if r is not None:
+                    return r
         if isinstance(node, ast.Attribute) and node.attr == "__name__":
             n = sym_of(self.ev(node.value))
             if n is not None and n in self.modfuncs and n not in self.buffers:
@@ -1157,6 +1196,107 @@ class Ev3(AutoEvaluator):
                 return [(x, None) for x in v]
             if isinstance(v, DictValue):
                 return [(self._key_value(k), None) for k in v.d]
+        return None
+
+    def _mentions_lazy(self, it):
+        """the iterable is, or is enumerate / zip / list / tuple / iter of, a comprehension, a map(...) call or a local bound to a LazySeq"""
+        if isinstance(it, (ast.ListComp, ast.GeneratorExp)):
+            return True
+        if isinstance(it, ast.Name):
+            return it.id not in self.buffers and isinstance(self.env.get(it.id), LazySeq)
+        if isinstance(it, ast.Call) and isinstance(it.func, ast.Name) and it.func.id not in self.env and it.func.id not in self.buffers and not it.keywords:
+            if it.func.id == "map":
+                return len(it.args) >= 2
+            if it.func.id in ("enumerate", "zip", "list", "tuple", "iter"):
+                return any(self._mentions_lazy(a) for a in it.args)
+        return False
+
+    def _lazy_seq(self, node):
+        """a list comprehension / generator expression / map(...) call over a sequence that is not enumerable from the source -> LazySeq (None when the
+        generic element cannot be formed)"""
+        ph = "<i:%d.%d%s>" % (getattr(node, "lineno", 0), getattr(node, "col_offset", 0), self.chain)
+        self.in_template += 1
+        try:
+            tmpl = self._generic_element(node, F.sym(ph))
+        except Unsupported:
+            tmpl = None
+        finally:
+            self.in_template -= 1
+        if tmpl is None:
+            return None
+        return LazySeq("a sequence built element by element from one that is not enumerable from the source", tmpl, ph)
+
+    def _generic_element(self, it, k):
+        """value of the element at position k (a formula: a loop counter, a placeholder) of the iterable `it` (a node); None when it is not known"""
+        plain = lambda v: v is not None and not is_unknown(v) and not isinstance(v, (tuple, DictValue))      # noqa: E731
+        if isinstance(it, (ast.ListComp, ast.GeneratorExp)):
+            if len(it.generators) != 1 or it.generators[0].ifs or it.generators[0].is_async:
+                return None
+            g = it.generators[0]
+            names = {n.id for n in ast.walk(g.target) if isinstance(n, ast.Name)}
+            if names & (self.buffers | set(self.pinned)):
+                return None
+            x = self._generic_element(g.iter, k)
+            if x is None:
+                return None
+            missing = object()
+            saved = {n: self.env.get(n, missing) for n in names}
+            saved_alias = dict(self.alias_of)
+            try:
+                self._assign(g.target, x, it)
+                return self.ev(it.elt)
+            finally:
+                for n, o in saved.items():
+                    if o is missing:
+                        self.env.pop(n, None)
+                    else:
+                        self.env[n] = o
+                self.alias_of = saved_alias
+        if isinstance(it, ast.Call) and not any(isinstance(a, ast.Starred) for a in it.args) and not it.keywords:
+            d = dotted(it.func) or ""
+            if d.split(".")[0] in self.env or d.split(".")[0] in self.buffers:
+                d = ""
+            if d == "range" and len(it.args) in (1, 2):
+                vs = [self.ev(a) for a in it.args]
+                if all(plain(v) for v in vs):
+                    return k if len(vs) == 1 else need(vs[0]) + k
+                return None
+            if d == "enumerate" and len(it.args) in (1, 2):
+                x = self._generic_element(it.args[0], k)
+                start = self.ev(it.args[1]) if len(it.args) == 2 else F.const(0)
+                return PyTuple((k + need(start), x)) if x is not None and plain(start) else None
+            if d == "zip" and it.args:
+                xs = [self._generic_element(a, k) for a in it.args]
+                return None if any(x is None for x in xs) else PyTuple(xs)
+            if d in ("list", "tuple", "iter") and len(it.args) == 1:
+                return self._generic_element(it.args[0], k)
+            if d in ("it.repeat", "itertools.repeat", "repeat") and len(it.args) in (1, 2):
+                return self.ev(it.args[0])
+            if d == "map" and len(it.args) >= 2:
+                xs = [self._generic_element(a, k) for a in it.args[1:]]
+                if any(x is None for x in xs):
+                    return None
+                # f(element of A, element of B, ...): the call is evaluated like any other (a lambda is applied, a module-level function followed)
+                missing = object()
+                tmp = ["<elem%d:%d.%d>" % (i, getattr(it, "lineno", 0), getattr(it, "col_offset", 0)) for i in range(len(xs))]
+                saved = {n: self.env.get(n, missing) for n in tmp}
+                call = ast.copy_location(ast.Call(func=it.args[0], args=[ast.copy_location(ast.Name(id=n, ctx=ast.Load()), it) for n in tmp], keywords=[]), it)
+                try:
+                    self.env.update(dict(zip(tmp, xs)))
+                    return self.ev(call)
+                finally:
+                    for n, o in saved.items():
+                        if o is missing:
+                            self.env.pop(n, None)
+                        else:
+                            self.env[n] = o
+            return None
+        if isinstance(it, (ast.Name, ast.Attribute, ast.Subscript, ast.BinOp)):
+            v = self.ev(it)
+            if isinstance(v, LazySeq):
+                return v.element(k)
+            if plain(v):
+                return F.fn("idx", need(v), k)
         return None
 
     def _comprehension(self, node):
@@ -1378,12 +1518,38 @@ class Ev3(AutoEvaluator):
                     if self.done:
                         break
                 return
+        if self._mentions_lazy(it):
+            # a loop over a sequence built element by element (a comprehension, map(...), enumerate / zip of one): one generic iteration on its generic
+            # element; the position is the loop's own counter where it has one (enumerate, zip with a range)
+            cname = None
+            if d == "enumerate" and len(it.args) == 1 and isinstance(t, (ast.Tuple, ast.List)) and len(t.elts) == 2 and isinstance(t.elts[0], ast.Name):
+                cname = t.elts[0].id
+            elif d == "zip" and isinstance(t, (ast.Tuple, ast.List)) and len(t.elts) == len(it.args):
+                cname = next((e.id for e, a in zip(t.elts, it.args) if isinstance(e, ast.Name) and isinstance(a, ast.Call) and dotted(a.func) == "range"
+                              and len(a.args) == 1), None)
+            if cname is not None and cname not in self.buffers:
+                k = F.sym(cname)
+            else:
+                cname = None
+                k = F.sym("<k:%s>" % next((n.id for n in ast.walk(t) if isinstance(n, ast.Name)), "seq"))
+            try:
+                x = self._generic_element(it, k)
+            except Unsupported:
+                x = None
+            if x is not None:
+                if cname is not None:
+                    self.counters.add(cname)
+                bind(t, x)
+                self.run(st.body)
+                return
         if d == "enumerate" and len(it.args) == 1 and isinstance(t, (ast.Tuple, ast.List)) and len(t.elts) == 2 and isinstance(t.elts[0], ast.Name):
             arr = self.ev(it.args[0])
             k = F.sym(t.elts[0].id)
             self.counters.add(t.elts[0].id)
             bind(t.elts[0], k)
-            if is_unknown(arr) or isinstance(arr, (tuple, DictValue)):
+            if isinstance(arr, LazySeq):
+                bind(t.elts[1], arr.element(k))
+            elif is_unknown(arr) or isinstance(arr, (tuple, DictValue)):
                 bind(t.elts[1], Unknown("loop over an undetermined sequence"))
             else:
                 bind(t.elts[1], F.fn("idx", need(arr), k))
@@ -1405,7 +1571,9 @@ class Ev3(AutoEvaluator):
                     bind(e, F.sym(e.id) if e.id != (cnt[0] if cnt else None) else k)
                     continue
                 arr = self.ev(a)
-                if is_unknown(arr) or isinstance(arr, (tuple, DictValue)):
+                if isinstance(arr, LazySeq):
+                    bind(e, arr.element(k))
+                elif is_unknown(arr) or isinstance(arr, (tuple, DictValue)):
                     bind(e, F.sym(e.id))
                 else:
                     bind(e, F.fn("idx", need(arr), k))
@@ -1841,6 +2009,7 @@ class Ev3(AutoEvaluator):
         sub.globals = self.globals
         sub.lambdas, sub.arrays, sub.modfuncs, sub.parent = self.lambdas, self.arrays, self.modfuncs, self
         sub.chain = "%s/%s.%s" % (self.chain, getattr(node, "lineno", 0), getattr(node, "col_offset", 0))
+        sub.in_template = self.in_template
         sub.foreign = set(self.foreign) | {self.bname(b) for b in self.buffers}
 
     def _merge(self, sub):
@@ -1909,6 +2078,20 @@ class Ev3(AutoEvaluator):
                 keys = [pykey(x[0]) for x in v]
                 if all(ok for ok, _k in keys):
                     return DictValue({k: x[1] for (_ok, k), x in zip(keys, v)})
+        if isinstance(node.func, ast.Name) and node.func.id not in self.env and node.func.id not in self.buffers and node.func.id in (self.module_consts or {}):
+            fields = _namedtuple_fields(self.module_consts[node.func.id])
+            if fields is not None and not any(isinstance(x, ast.Starred) for x in node.args) and all(k.arg in fields for k in node.keywords) \
+                    and len(node.args) + len(node.keywords) == len(fields) and not any(k.arg in fields[:len(node.args)] for k in node.keywords):
+                # NAME = namedtuple("NAME", "f1 f2") at module level: NAME(x, y) / NAME(f2=y, f1=x) is the display (x, y)
+                got = dict(zip(fields, [self.ev(x) for x in node.args]))
+                got.update({k.arg: self.ev(k.value) for k in node.keywords})
+                if len(got) == len(fields):
+                    return PyTuple(got[f] for f in fields)
+        if isinstance(node.func, ast.Name) and node.func.id == "map" and len(node.args) >= 2 and not node.keywords and "map" not in self.env \
+                and "map" not in self.buffers and not any(isinstance(x, ast.Starred) for x in node.args):
+            r = self._lazy_seq(node)
+            if r is not None:
+                return r
         r = self._effects(node)
         if r is not NotImplemented:
             return r
@@ -2045,6 +2228,7 @@ class Ev3(AutoEvaluator):
         sub.globals = self.globals
         sub.lambdas, sub.arrays, sub.modfuncs, sub.parent = self.lambdas, self.arrays, self.modfuncs, self
         sub.chain = "%s/%s.%s" % (self.chain, getattr(node, "lineno", 0), getattr(node, "col_offset", 0))
+        sub.in_template = self.in_template
         sub.foreign = set(self.foreign) | {self.bname(b) for b in self.buffers}
         # the arrays the callee fills by subscript stores: a parameter is the caller's array object when the argument is one symbol (the stores are
         # recorded under the caller's name, whatever the callee calls it), otherwise an object of its own whose current value is the argument;
@@ -2107,6 +2291,20 @@ _CONST_NODES = (ast.Constant, ast.Tuple, ast.List, ast.Dict, ast.Set, ast.Name, 
                 # tables built by an expression: comprehensions over displays, conditional expressions, lambdas as entries
                 ast.ListComp, ast.SetComp, ast.DictComp, ast.GeneratorExp, ast.comprehension, ast.IfExp, ast.Compare, ast.cmpop, ast.BoolOp, ast.boolop,
                 ast.Lambda, ast.arguments, ast.arg)
+
+
+def _namedtuple_fields(node):
+    """the value node of a module-level constant is `namedtuple("X", "f1 f2")` / `collections.namedtuple("X", ["f1", "f2"])` -> the field names (else None)"""
+    if not (isinstance(node, ast.Call) and dotted(node.func) in ("namedtuple", "collections.namedtuple") and len(node.args) == 2 and not node.keywords):
+        return None
+    spec = node.args[1]
+    if isinstance(spec, ast.Constant) and isinstance(spec.value, str):
+        names = spec.value.replace(",", " ").split()
+    elif isinstance(spec, (ast.Tuple, ast.List)) and all(isinstance(e, ast.Constant) and isinstance(e.value, str) for e in spec.elts):
+        names = [e.value for e in spec.elts]
+    else:
+        return None
+    return names if names and len(set(names)) == len(names) and all(n.isidentifier() for n in names) else None
 
 
 def module_consts3(ctx, rel):
